@@ -14,8 +14,11 @@ BLOCKING = {'ev_wait', 'q_get', 'bar_leave', 'th_join', 'recv', 'accept', 'conne
 
 
 class PO:
-    def __init__(self, traces, drop=None):
-        """traces: {thread: [op dict]}; drop: optional (thread, idx) of an operation that is deleted (seeded bug)"""
+    INIT = '_init'
+
+    def __init__(self, traces, drop=None, pre=None):
+        """traces: {thread: [op dict]}; drop: optional (thread, idx) of an operation that is deleted (seeded bug);
+        pre: operations that have happened before everything else (items pending in channels when a segment starts)"""
         self.tr = {}
         for t, ops in traces.items():
             lst = [dict(o) for o in ops]
@@ -24,6 +27,8 @@ class PO:
             for j, o in enumerate(lst):
                 o['pos'] = j
             self.tr[t] = lst
+        if pre:
+            self.tr[self.INIT] = [dict(o, thread=self.INIT, pos=j) for j, o in enumerate(pre)]
         self.O = {}
         self.P = {t: z3.Int(f'P_{t}') for t in self.tr}
         for t, ops in self.tr.items():
@@ -47,6 +52,12 @@ class PO:
     def _structure(self):
         c = self.cons
         for t, ops in self.tr.items():
+            if t == self.INIT:
+                # already happened: all executed, before every operation of the real threads
+                c.append(self.P[t] == len(ops))
+                for j, o in enumerate(ops):
+                    c.append(self.o(o) == j - len(ops))
+                continue
             c.append(z3.And(self.P[t] >= 0, self.P[t] <= len(ops)))
             for a, b in zip(ops, ops[1:]):
                 c.append(self.o(a) < self.o(b))
